@@ -111,7 +111,6 @@ impl Search {
         // Uses a heuristic to determine the maximum time to spend on a move
         #[cfg(rce_verif)]
         crate::verif_hooks::sched("search:enter");
-        self.start();
         #[cfg(rce_verif)]
         crate::verif_hooks::sched("search:armed");
 
@@ -789,10 +788,6 @@ impl Search {
     /// search.start();
     /// assert_eq!(search.is_running(), true);
     /// ```
-    fn start(&self) {
-        self.running.store(true, Ordering::Relaxed);
-    }
-
     /// Sets the `AtomicBool` that is used to determine if the search should continue to false
     /// The search will wrap up as soon as possible and stop.
     ///
